@@ -184,7 +184,7 @@ def weave(scratch, plan_path=None):
                 hp = os.path.join(scratch, 'verif_k', 'k_' + module_path(rel).replace('::', '_') + '.rs')
                 if not new.endswith('\n'):
                     new += '\n'
-                new += '\n#[cfg(kani)]\n#[path = "%s"]\nmod verif_k;\n' % hp
+                new += '\n#[cfg(kani)]\n#[path = "%s"]\npub(crate) mod verif_k;\n' % hp
                 woven.append('%s mod verif_k -> %s' % (rel, m['harness'] or 'generated'))
         # pure-addition check
         a_lines = orig.split('\n')
